@@ -391,7 +391,7 @@ def check_c11(prop, tier, replay, selftest):
     res.extra["drift_count"] = len(res.drift)
     fol = [t[3] for (_, t) in tr["tuples"] if t and t[0] == "FOLLOWED"]
     res.extra["histories_followed_by_store_level_model"] = {"fully": fol.count("fully"), "partly": fol.count("partly"),
-        "meaning": "AdfRobddOps (grounded / complete / stable / extra formulas on RobddOps) stepped from the real pre-state predicts every raw answer (handles, order) and the final node table"}
+        "meaning": "AdfRobddOps (grounded / complete / stable / pre-filter / extra formulas on RobddOps) stepped from the real pre-state predicts every raw answer (handles, order) and the final node table"}
     res.assumptions = ["TLC evaluates AdfSem / RobddOps correctly", "the harness logs the raw answers (handles included) of the library (binding self-test: --selftest)",
                        "cache transparency on the model side = StepOK on every transition of the closed two-variable store graph (memo tables warm or cold)"]
     return res.finish()
